@@ -217,6 +217,12 @@ fn content(rng: &mut Rng, max: usize) -> (Vec<u8>, &'static str) {
             return (rng.bytes(n), "boundary");
         }
     }
+    if max >= (128 << 10) && rng.chance(1, 10) {
+        // megabytes of one byte value or of a short pattern: deflate's best case (about 1030:1)
+        let n = (2_200_000 + rng.usize_below(2_400_000)).min(max.max(4_600_000));
+        let p = if rng.chance(1, 2) { vec![rng.next_u64() as u8] } else { b"ab".to_vec() };
+        return ((0..n).map(|i| p[i % p.len()]).collect(), "huge-run");
+    }
     let n = match rng.below(6) {
         0 => 0,
         1 => 1,
